@@ -28,3 +28,11 @@ Definition first_phase_b (cands : list ring) (n : nat) : bool :=
   | [] => false
   | c :: rest => Nat.eqb n 1 || fst (fst (fst (rf_phase1 n rest [c] c [c] [])))
   end.
+
+(* intermediate states of _make_pid: after the first loop (r = 0) and after r rounds of the main loop *)
+Definition make_pid_rounds (paths : list path) (r : nat) : d1 * d1 * dist :=
+  let st := fold_left pid_init_step (sort_paths paths) ([], [], []) in
+  let ks := keys (fst (fst st)) in
+  fold_left (pid_k ks) (firstn r ks) st.
+Definition c_pid_round (paths : list path) (r : nat) (e1 e2 : d1) : bool :=
+  let st := make_pid_rounds paths r in d1_eqb (fst (fst st)) e1 && d1_eqb (snd (fst st)) e2.
